@@ -5,7 +5,7 @@ import (
 	"strings"
 
 	"github.com/zclconf/go-cty/cty"
-	
+
 	"verif/harness/facet"
 	"verif/harness/wf"
 )
@@ -33,8 +33,43 @@ func largeElem(kind string, i int) cty.Value {
 	return cty.NumberIntVal(int64(i) - 3)
 }
 
+// buildDeep nests a leaf below n containers of the given kind ("deep-mixed"
+// cycles through list, tuple, object and map).
+func buildDeep(kind string, n int, leaf cty.Value) cty.Value {
+	v := leaf
+	for i := 0; i < n; i++ {
+		k := kind
+		if kind == "deep-mixed" {
+			k = []string{"deep-list", "deep-tuple", "deep-object", "deep-map"}[i%4]
+		}
+		switch k {
+		case "deep-list":
+			v = cty.ListVal([]cty.Value{v})
+		case "deep-tuple":
+			v = cty.TupleVal([]cty.Value{v})
+		case "deep-object":
+			v = cty.ObjectVal(map[string]cty.Value{"a": v})
+		default:
+			v = cty.MapVal(map[string]cty.Value{"k": v})
+		}
+	}
+	return v
+}
+
+var deepSizes = []int{20, 64, 99, 100, 101, 128, 255, 256, 300, 1000}
+
 func buildLarge(in LargeIn) cty.Value {
 	n := in.N
+	if strings.HasPrefix(in.Kind, "deep-") {
+		leaf := cty.StringVal("leaf")
+		switch in.Elem {
+		case "null":
+			leaf = cty.NullVal(cty.Number)
+		case "unknown":
+			leaf = cty.UnknownVal(cty.Bool).RefineNotNull()
+		}
+		return buildDeep(in.Kind, n, leaf)
+	}
 	switch in.Kind {
 	case "string":
 		return cty.StringVal(strings.Repeat("x", n))
@@ -85,7 +120,7 @@ func buildLarge(in LargeIn) cty.Value {
 
 func init() {
 	facet.Register(facet.F[LargeIn]{
-		Prop: "C15", Name: "roundtrip/large", 		Rule: "lists, sets, maps, tuples and objects with n members, strings of n bytes, n drawn from the size classes {0,1,15,16,17,31,32,33,255,256,257,300,1023,1024,1025,4096,65535,65536,65537}, under the value's own type or the dynamic pseudo-type: the round trip must return the same type and a RawEqual value. Enumerated exhaustively over (kind, n, member kind, constraint); non-trivial = n >= 16",
+		Prop: "C15", Name: "roundtrip/large", Rule: "lists, sets, maps, tuples and objects with n members, strings of n bytes, n drawn from the size classes {0,1,15,16,17,31,32,33,255,256,257,300,1023,1024,1025,4096,65535,65536,65537}, under the value's own type or the dynamic pseudo-type; and a leaf (known, null, unknown for MessagePack) below n containers, n in {20,64,99,100,101,128,255,256,300,1000} (lists, tuples, objects, maps, and the four in turn): the round trip must return the same type and a RawEqual value. Enumerated exhaustively over (kind, n, member kind, constraint); non-trivial = n >= 16",
 		Exhaustive: func() []LargeIn {
 			var out []LargeIn
 			for _, kind := range []string{"list", "set", "map", "tuple", "object"} {
@@ -109,6 +144,16 @@ func init() {
 			for _, kind := range []string{"string"} {
 				for _, n := range largeSizes {
 					out = append(out, LargeIn{Kind: kind, N: n, Elem: "num"}, LargeIn{Kind: kind, N: n, Elem: "num", Dyn: true})
+				}
+			}
+			for _, kind := range []string{"deep-list", "deep-tuple", "deep-object", "deep-map", "deep-mixed"} {
+				for _, n := range deepSizes {
+					for _, leaf := range []string{"str", "null"} {
+						out = append(out, LargeIn{Kind: kind, N: n, Elem: leaf})
+						if n <= 101 && leaf == "str" {
+							out = append(out, LargeIn{Kind: kind, N: n, Elem: leaf, Dyn: true})
+						}
+					}
 				}
 			}
 			for _, n := range []int{65535, 65536, 65537} {
